@@ -147,7 +147,8 @@ impl IOQueue {
 
     /// Consume bytes from the front of the queue
     pub fn consume(&mut self, amt: usize) {
-        if self.chunks.front().map(|chunk| chunk.len()).unwrap_or(0) > self.offset + amt {
+        if self.chunks.front().map(|chunk| chunk.len()).unwrap_or(0) > self.offset.saturating_add(amt)
+        {
             self.offset += amt;
             self.length -= amt;
         } else {
